@@ -451,6 +451,18 @@ def rule_parser(ctx, mod, sh, mean, model):
                 bad.append((text, "gives %s" % (got,), "while %r alone gives %s" % (x, alone)))
     ctx.check(not bad, R, "one-verdict-per-text", fi.where(), "from_shorthand(X), from_shorthand(X/E), from_shorthand(X|F#7), from_shorthand(F#7|X) for %d alias-like texts X" % len(bodies),
               "%d of %d readings in context disagree with the text read alone, e.g. %s" % (len(bad), n_ctx, bad[:3]))
+    # (l) the spelled-out aliases are interchangeable with the short forms wherever a chord text may stand -- also when
+    #     both partners of a polychord, or the chord over a bass and its partner, use the same alias
+    # (partners chosen so that no part begins on the letter the part before it ends on: the no-repeat rule stays out of it)
+    pairs = [("Amin|Cmin", "Am|Cm"), ("A-7|E-", "Am7|Em"), ("Fmaj7|Dmaj", "FM7|DM"), ("Cmi|Gmi7", "Cm|Gm7"), ("Dma7|Ama", "DM7|AM"), ("Amin/C|Emin", "Am/C|Em"),
+             ("Emin7/B|Amin", "Em7/B|Am"), ("Bbmaj7|Fmaj7|Cmaj7", "BbM7|FM7|CM7"), ("D-|F-|A-7", "Dm|Fm|Am7")]
+    bad = []
+    for spelled, short_form in pairs:
+        a_, b_ = verdict(spelled), verdict(short_form)
+        if a_ != b_ or b_[0] != "chord":
+            bad.append((spelled, a_, short_form, b_))
+    ctx.check(not bad, R, "aliases-in-compounds", fi.where(), "from_shorthand(<polychords whose parts use the same alias>) vs the short spellings",
+              "%d of %d differ, e.g. %s" % (len(bad), len(pairs), bad[:2]))
     # slash exemption list == keys containing '/'
     with_slash = sorted(k for k in known if "/" in k)
     for k in with_slash:
